@@ -327,6 +327,13 @@ func RunC16(c *Ctx) {
 					continue
 				}
 				snap := refmodel.CopyTree(v)
+				// the caller fills the spare capacity of the slices it was given (what append does):
+				// no other part of the result may live there (seeded change C16r6-m1)
+				scribbleSpare(v)
+				if !refmodel.EqTree(v, snap) {
+					c.Rec.Violate(cs, "value tree changed when the caller wrote into the spare capacity of its own slices (parts of the result share a backing array)", "ReadValue", show(snap), show(v))
+					snap = refmodel.CopyTree(v)
+				}
 				for i := range w {
 					w[i] = 0xEE
 				}
